@@ -286,6 +286,74 @@ Section Pipeline.
     process_dependencies import_mgmt r1.
 End Pipeline.
 
+(* ---- the driver of util/resolve/maven.go: APIClient.Requirements for a Maven version
+   (mavenRequirements, fetchMavenParents).  Differences from the example program: default
+   profiles only (no JDK, no OS), no packaging test, MaxMavenParent rounds counted from the
+   first parent, every fetched project carries the key it was REQUESTED under
+   (mavenRequirementsToProject), and an import starts from a project that already has the
+   key of the import. *)
+Section ResolveDriver.
+  Variable jdk_matches : bytes -> bytes -> res bool.
+  Variable repo : list project.
+
+  Definition blank_os : os_t := mkOS [] [] [] [].
+
+  Definition with_key (p : project) (k : pkey) : project :=
+    let '(g, a, v) := k in
+    mkProject g a v (par_group p) (par_artifact p) (par_version p) (p_packaging p)
+              (p_props p) (p_deps p) (p_mgmt p) (p_profiles p).
+
+  Fixpoint fetch_parents (k : nat) (current : pkey) (visited : list pkey) (result : project) : res project :=
+    match k with
+    | O => interpolate result
+    | S k' =>
+        let '(g, a, v) := current in
+        if is_empty g || is_empty a || is_empty v then interpolate result
+        else if mem_pkey current visited then Err E_cycle
+        else
+          proj <- fetch repo current ;;
+          proj' <- merge_profiles jdk_matches [] blank_os (with_key proj current) ;;
+          fetch_parents k' (par_group proj', par_artifact proj', par_version proj')
+                        (current :: visited) (merge_parent result proj')
+    end.
+
+  Definition import_mgmt_resolve (g a v : bytes) : res (list dependency) :=
+    r <- fetch_parents max_maven_parent (g, a, v) [] (mkProject g a v [] [] [] [] [] [] [] []) ;;
+    Ok (p_mgmt r).
+
+  Definition effective_resolve (root : project) : res (list dependency * list dependency) :=
+    r0 <- merge_profiles jdk_matches [] blank_os (with_key root (declared_key root)) ;;
+    r1 <- fetch_parents max_maven_parent (par_group r0, par_artifact r0, par_version r0) [] r0 ;;
+    process_dependencies import_mgmt_resolve r1.
+End ResolveDriver.
+
+(* resolve.MavenDepType and Dependency.ExclusionsString: what a dependency becomes as a requirement *)
+Definition s_test : bytes := [116;101;115;116].
+Definition s_compile : bytes := [99;111;109;112;105;108;101].
+Definition has_pipe (s : bytes) : bool := existsb (fun c => c =? 124) s.
+
+Fixpoint exclusions_string (first : bool) (l : list (bytes * bytes)) : bytes :=
+  match l with
+  | [] => []
+  | (g, a) :: l' =>
+      if has_pipe g || has_pipe a then exclusions_string first l'
+      else (if first then [] else [124]) ++ g ++ [58] ++ a ++ exclusions_string false l'
+  end.
+
+Record requirement := mkReq {
+  rq_name : bytes; rq_version : bytes; rq_opt : bool; rq_test : bool; rq_scope : bytes;
+  rq_type : bytes; rq_classifier : bytes; rq_has_excl : bool; rq_excl : bytes }.
+
+Definition requirement_of (d : dependency) : requirement :=
+  let test := bytes_eqb (d_scope d) s_test in
+  mkReq (d_group d ++ [58] ++ d_artifact d) (d_version d)
+        (bytes_eqb (d_optional d) s_true) test
+        (if test then [] else if is_empty (d_scope d) || bytes_eqb (d_scope d) s_compile then [] else d_scope d)
+        (if is_empty (d_type d) || bytes_eqb (d_type d) s_jar then [] else d_type d)
+        (d_classifier d)
+        (match d_excl d with [] => false | _ => true end)
+        (exclusions_string true (d_excl d)).
+
 (* The order of the steps, to be compared with what the translator reads from the sources. *)
 Definition model_order_mergeParents : list bytes :=
   [[77;101;114;103;101;80;114;111;102;105;108;101;115];    (* MergeProfiles *)
